@@ -23,4 +23,13 @@ type firstIterEq struct {
 	a, b string
 }
 
+func ghostBase(name string) string {
+	for i := 0; i < len(name); i++ {
+		if name[i] == '[' {
+			return name[:i]
+		}
+	}
+	return name
+}
+
 func writeFile(path, text string) error { return osWriteFile(path, []byte(text)) }
